@@ -2,7 +2,9 @@
 (* C01 direction B: operation histories recorded from real AtomArray / AtomArrayStack objects,
    validated event by event against AtomContainerOps.Apply.
    Event: {op, arg, oc, out, obs}; obs = projection of the object after the call
-   {kind, a, z, box, bonds, ex} with sets written as sorted lists. *)
+   {kind, a, z, box, bonds, ex} with sets written as sorted lists.
+   Index objects and integer positions carry their form (AtomContainerOps, "index forms"): the
+   expected value is computed from kind and payload alone, whatever the form. *)
 EXTENDS AtomContainerOps, Json, IOUtils
 
 Tr == JsonDeserialize(IOEnv.TRACE_FILE)
@@ -21,11 +23,15 @@ Arg(e) ==
     [] e.op \in {"concat", "rconcat"} -> <<e.arg[1], e.arg[2], e.arg[3], ToSet(e.arg[4])>>
     [] OTHER -> e.arg
 
+\* an event whose index forms are outside the form domain is a defect of the driver, not of the
+\* code: it is reported with the outcome "OutsideDomain" (the driver turns it into a machinery failure)
 Judge(e, r) ==
   LET okOc  == r.oc = e.oc
       okObs == r.st = FromObs(e.obs)
       okOut == (r.oc # "ok" \/ e.oc # "ok") \/ r.out = e.out
-  IN IF okOc /\ okObs /\ okOut THEN TRUE
+  IN IF ~Dom_Call(e.op, Arg(e)) \/ (e.op = "index" /\ ~Dom_Index(S, Arg(e)))
+       THEN PrintT(<<"MISMATCH", tid, l + 1, <<FALSE, FALSE, FALSE>>, "OutsideDomain", <<>>, <<>>>>)
+     ELSE IF okOc /\ okObs /\ okOut THEN TRUE
      ELSE PrintT(<<"MISMATCH", tid, l + 1, <<okOc, okObs, okOut>>, r.oc, r.out,
                    [kind |-> r.st.kind, a |-> r.st.a, z |-> r.st.z, box |-> r.st.box,
                     bonds |-> r.st.bonds, ex |-> r.st.ex]>>)
